@@ -1,6 +1,7 @@
 #!/venv/bin/python
 """regenerate seeded/INDEX.md (and print the table for DESIGN.md section 8) from the meta.json files"""
 import glob, json, os
+NOTES = json.load(open('/verif/tools/seeded_notes.json'))
 rows = []
 for d in sorted(glob.glob('/verif/seeded/C*/')):
     m = json.load(open(d + 'meta.json'))
@@ -17,7 +18,7 @@ for d in sorted(glob.glob('/verif/seeded/C*/')):
         cls = ', '.join(x.split(' count=')[0].replace('class=', '').split('/', 1)[1] for x in c.get('own_property_violation_classes', [])[:2])
         others = ''
     needs = (m.get('needs_to_manifest') or '').replace('\n', ' ')
-    rows.append((name, m['property'], (m.get('breaks') or '').replace('\n', ' ')[:230], needs[:200], det, cls[:120], others, m.get('strengthening', '')))
+    rows.append((name, m['property'], (m.get('breaks') or '').replace('\n', ' ')[:230], needs[:200], det, cls[:120], others, NOTES.get(name) or m.get('strengthening', '')))
 out = ['# Seeded property-breaking changes', '',
        'Each directory holds `patch.diff` (apply with `git -C /repo apply`), `demo.py` (fails with the change, passes without) and `meta.json`.',
        'All were produced by sub-agents that saw only the property text, and confirmed by `tools/mut.sh` before being kept.', '',
